@@ -486,7 +486,8 @@ def run(tier, seed):
     for c in forced:
         if c.get("deadlock") or not c.get("rets") or not all(representable(t) for t in c["rets"]): continue
         nops = sum(len(t) for t in c["prog"])
-        if nops > 3 or c["label"].startswith("double-close"): continue
+        # the model's exhaustive exploration is only cheap for two threads (<= ~20k interleavings)
+        if nops > 3 or len(c["prog"]) > 2 or c["label"].startswith("double-close"): continue
         key = json.dumps([c["atomic"], c["pre"] or [], c["prog"]])
         groups.setdefault(key, {})[json.dumps(c["rets"])] = c
     defs, order = [], []
